@@ -94,6 +94,12 @@ CHECKS = {
          'Theorems for every dimension, transform (none/diagonal/full), exponent, bandwidth: op sequence = exp(-||T(x-z)||_p^q / L^q) (L2, Lpq, product) and ((1-c) mean exp(..)+c)^power (sum-power); the memory-light expansion is the quadratic form of the difference exactly for symmetric M (counterexample without symmetry); symmetry, unit diagonal, range (0,1]. '
          'Entries of Kernel.get_kernel_matrix (float64/float32, all CPU kernels, every boundary (p,q) combination, bandwidths 1e-2..1e3, coincident/far/high-dimensional points) are certified against the op-sequence model by `interval` and compared with mpmath closed forms; aliases exhaustively; PSD tested numerically.',
          'partial: the PSD clause (Schoenberg) is stated, not proved. Trusted: Coq kernel, Interval tactic, real-number axioms, mpmath; tolerances 1e-9 (float64), 2e-5 (float32), (sqrt u)^q scale for the light kernel.'),
+
+ 'C04': ('DESIGN.md §4 C04',
+         'Coq/Coquelicot proof (is_derive) that the closed-form L2 gradient formula is the derivative of the predictor for any number of centers and any dimension + interval-certified correspondence of the op-sequence model + high-precision (mpmath) derivative oracle for all kernels',
+         'Theorems: radial profile derivative (auto_derive); the predictor along a coordinate line is a sum of radial profiles along a line in transformed space (any transform); the masked closed-form L2 gradient followed by the transform is that derivative wherever the query is at distance >= eps from all centers and the transform is used symmetrically (proved for identity/diagonal; = symmetry of the matrix for full); a coincident center contributes exactly zero. '
+         'Every entry of Kernel.get_function_grads (all CPU kernels, 1-4 outputs, 1-3 query points, all transforms, coincident points) is compared with the 60-digit derivative of the documented closed form; L2/light-L2 entries are certified against the Coq model by `interval`; RFM.get_grads vs finite differences; xRFM.get_grads vs the leaf reached.',
+         'partial: for product / Lpq / sum-power kernels the derivative is computed by torch.func.jacrev (contract, checked numerically only — this is how the multi-output cdist/vmap defect was found). Trusted: Coq kernel, Coquelicot, Interval, real-number axioms, mpmath.'),
 }
 
 NOT_YET = 'check not built yet in this session (planned, see DESIGN.md §4)'
